@@ -66,6 +66,8 @@ type WorkerArgs struct {
 	ReplayAux  []int64
 	Replay     bool
 	MaxRuns    int64
+	// NoShrink: report a violation as found (history replays).
+	NoShrink bool
 	// Digest makes the worker print one behaviour digest per run (determinism self-test).
 	Digest bool
 	// CurFile: the worker records the index and seed of the run it is about to execute in this file
@@ -218,7 +220,13 @@ func WorkerMain(e Engine, a *WorkerArgs) int {
 			scfg := *cfg
 			scfg.Aux = v.Aux
 			aux := v.Aux
-			sd, sa, sv, sev := Shrink(e, &scfg, draws, v, 60*time.Second)
+			var sd []uint32
+			var sa []int64
+			var sv *Violation
+			var sev []string
+			if !a.NoShrink {
+				sd, sa, sv, sev = Shrink(e, &scfg, draws, v, 60*time.Second)
+			}
 			if sv != nil {
 				draws, aux, v, events = sd, sa, sv, sev
 			}
